@@ -36,7 +36,15 @@ func completeComment(raw string, atEnd bool) bool {
 }
 
 // lexAllGo runs the public lexer to <eof>; err != nil when the lexer rejects.
+// lexAllGo: the raw call under the deadline of safely (a lexer or splitter that loops is reported, not waited for).
 func lexAllGo(s string) (toks []token.Token, err error, crashed any) {
+	if p := safely(func() { toks, err, crashed = lexAllGoRaw(s) }); p != nil {
+		crashed = p
+	}
+	return
+}
+
+func lexAllGoRaw(s string) (toks []token.Token, err error, crashed any) {
 	defer func() {
 		if r := recover(); r != nil {
 			crashed = r
